@@ -124,7 +124,8 @@ def check_input(data, workdir, pattern="picture_%d.raw", quiet=True):
             return "conformant", ["files written %r, expected %r" % (files, sorted(want))]
         for i, (pic, vp, pcm) in enumerate(v.pictures):
             try:
-                rpic, rvp, rpcm = file_format.read(os.path.join(workdir, stem % (i,) + ".raw"))
+                with vc2run.lifted_int_limit():
+                    rpic, rvp, rpcm = file_format.read(os.path.join(workdir, stem % (i,) + ".raw"))
             except Exception as e:  # noqa
                 return "conformant", ["could not read back picture %d: %s: %s" % (i, type(e).__name__, e)]
             if rpic["pic_num"] != pic["pic_num"] or any(to_lists(rpic[c]) != pic[c] for c in ("Y", "C1", "C2")):
@@ -160,6 +161,17 @@ def check_input(data, workdir, pattern="picture_%d.raw", quiet=True):
     return "crash", ["validator raised %s; command exit status %r" % (v.label, rc)]
 
 
+def resolve_huge(cfg):
+    """'huge' is kept symbolic in configurations (evidence and replay files are JSON)."""
+    cfg = dict(cfg)
+    which = cfg.pop("huge", None)
+    if which == "frame_rate":
+        cfg.update(frame_rate_numer=(1 << 20000) + 12345, frame_rate_denom=1001)
+    elif which == "pixel_aspect_ratio":
+        cfg.update(pixel_aspect_ratio_numer=7, pixel_aspect_ratio_denom=(1 << 15000) + 1)
+    return cfg
+
+
 def conformant_inputs(tier):
     """[(name, callable -> bytes)]"""
     out = []
@@ -171,8 +183,8 @@ def conformant_inputs(tier):
             out.append(("enc", c))
         if g == "G1" and c.get("slices_x") == 2 and c.get("fragment_slice_count") in (0, 1) and c == [x for gg, x in encspace.groups(tier) if gg == "G1" and x.get("slices_x") == 2 and x.get("fragment_slice_count") == c.get("fragment_slice_count")][0]:
             # conformant streams carrying a legal value of more than 4300 decimal digits
-            out.append(("enc", dict(c, frame_rate_numer=(1 << 20000) + 12345, frame_rate_denom=1001)))
-            out.append(("enc", dict(c, pixel_aspect_ratio_numer=7, pixel_aspect_ratio_denom=(1 << 15000) + 1)))
+            out.append(("enc", dict(c, huge="frame_rate")))
+            out.append(("enc", dict(c, huge="pixel_aspect_ratio")))
         if g == "G3" and (tier == "thorough" or (hash_stable(c) % 3 == 0) or c["luma_excursion"].bit_length() != c["color_diff_excursion"].bit_length()):
             out.append(("enc", c))
     return out
@@ -202,7 +214,7 @@ def _shard(arg):
         ci = conformant_inputs(tier)
         for i in range(w, len(ci), n):
             src, cfg = ci[i]
-            kw, opts = encspace.split(cfg)
+            kw, opts = encspace.split(resolve_huge(cfg))
             try:
                 cf = encfeat.make_cf(**kw)
                 data = encfeat.encode_stream(cf, "noise", 2)
@@ -255,7 +267,7 @@ def replay_case(case):
     workdir = tempfile.mkdtemp(prefix="verif-c25-")
     try:
         if "enc" in case:
-            kw, opts = encspace.split(case["enc"])
+            kw, opts = encspace.split(resolve_huge(case["enc"]))
             data = encfeat.encode_stream(encfeat.make_cf(**kw), "noise", 2)
             return check_input(data, workdir, case["pattern"], case.get("quiet", True))[1]
         c = tuple(tuple(x) if isinstance(x, list) else x for x in case["case"])
